@@ -769,5 +769,18 @@ m('readrows-missing-table-internal','C14',BT,
 	}
 
 	if err := validateRowRanges(req); err != nil {''','R72/(*server).ReadRows','a scan of a deleted table answers Internal')
+# ---- C02 / R73: an absent object is 404
+m('metadata-of-missing-object-500','C02',GCS,
+  '''	if obj == nil {
+		g.gapiError(w, http.StatusNotFound, fmt.Sprintf("%s/%s not found", bucket, filename))
+		return
+	}
+	g.jsonRespond(w, obj)
+}''','''	if obj == nil {
+		g.gapiError(w, http.StatusInternalServerError, fmt.Sprintf("%s/%s not found", bucket, filename))
+		return
+	}
+	g.jsonRespond(w, obj)
+}''','R73/','a deleted object is reported as a server error by the metadata GET')
 json.dump(M, open('/verif/mutants.json','w'), indent=1)
 print(len(M),'mutants')
